@@ -68,7 +68,7 @@ def run(tier, seed, build):
             d["text"] = d["text"].rstrip("\n")
     failures, stats = c04.evaluate(docs)
     return {"evaluations": 2 * len(docs), "distinct_nontrivial": len(stats["nontrivial"]),
-            "rule": "PIL documents as in C04 plus documents with planted hairpins pairing a domain with itself, long odd cycles through starred equal statements over odd-length domains, template clashes inside a repeated sequence, and over-constraints that live only among sequences no strand uses (clashing equal lines, a sequence equal to its own complement, clashing super-sequences); both layouts; the implementation must raise the over-constrained error exactly when the denotation-level oracle finds no assignment. Non-trivial = unsatisfiable, or satisfiable with shared classes",
+            "rule": "PIL documents as in C04 plus documents with planted hairpins pairing a domain with itself, long odd cycles through starred equal statements over odd-length domains, template clashes inside a repeated sequence, and over-constraints that live only among sequences no strand uses (clashing equal lines, a sequence equal to its own complement, clashing super-sequences); both layouts; the implementation must raise the over-constrained error exactly when the denotation-level oracle finds no assignment. Non-trivial = unsatisfiable, or satisfiable with shared classes; every fifth hand-written document ends without a newline, in an `equal` statement whose last item is starred",
             "samples": [d["text"] for d in docs[-2:]],
             "distribution": {k: v for k, v in stats.items() if k != "nontrivial"}, "failures": failures["C15"]}
 
